@@ -182,6 +182,10 @@ namespace epsic
 
     Matrix<4,4, double> get_crosscovariance (unsigned ilag) const
     {
+      // an instance is fully correlated with itself, field included
+      if (ilag == 0)
+        return get_covariance();
+
       if (ilag >= smooth)
         return 0;
 
@@ -236,6 +240,10 @@ namespace epsic
     //! Return cross-covariance between Stokes parameters as a function of lag
     Matrix<4,4, double> get_crosscovariance (unsigned ilag) const
     {
+      // an instance is fully correlated with itself, field included
+      if (ilag == 0)
+        return get_covariance();
+
       if (ilag >= width)
         return 0;
 
